@@ -30,6 +30,13 @@ func Root() string {
 	if d := os.Getenv("VERIF_ROOT"); d != "" {
 		return d
 	}
+	// bin/verif lives in <root>/bin: a snapshot of /verif therefore works on its own files
+	if exe, err := os.Executable(); err == nil {
+		r := filepath.Dir(filepath.Dir(exe))
+		if _, err := os.Stat(filepath.Join(r, "harness", "go.mod")); err == nil {
+			return r
+		}
+	}
 	return "/verif"
 }
 
